@@ -75,7 +75,7 @@ func check(r *harness.Run, sc scenario) (string, error) {
 	}
 	// rejected-event oracles: the same scenario with each single non-create event reported as rejected by the caller
 	// (algorithms v2 / v2.1 consult the oracle in the auth-event fallback of the iterative auth checks)
-	if sc.Reject == 0 && len(st.Conflicted) > 0 && algoOf(sc.Version) != 1 && (rejectOracles || (len(sc.A) <= 1 && len(sc.B) <= 1 && len(sc.Third) == 0)) {
+	if sc.Reject == 0 && len(st.Conflicted) > 0 && algoOf(sc.Version) != 1 && (rejectOracles || (len(sc.A)+len(sc.B) <= 3 && len(sc.Third) == 0)) {
 		for i := 1; i < len(b.All); i++ {
 			sc2 := sc
 			sc2.Reject = i
@@ -94,6 +94,14 @@ func check(r *harness.Run, sc scenario) (string, error) {
 	return b.Sig, nil
 }
 
+func singles(names []string) [][]string {
+	var out [][]string
+	for _, n := range names {
+		out = append(out, []string{n})
+	}
+	return out
+}
+
 // rejectOracles turns the rejected-event dimension on (thorough tier; the quick tier applies it to single-action branches)
 var rejectOracles bool
 
@@ -101,7 +109,7 @@ func main() { harness.Main("C10", "model_checking", run) }
 
 func run(r *harness.Run) {
 	r.Rule("room DAG histories generated from a base room (create, creator join, power levels, join rules, two joins): every unordered pair of branches, each every sequence of <= L actions from an alphabet of 25-27 actions (power-level edits by two users, join-rule changes, bans, kicks, unbans, invites, joins, leaves, knocks, topic/name/own-state changes by three users); an action enters a branch only if the reference auth rules allow it there (honest servers); auth events chosen per the specification's selection rule; state sets = the states at the two (three) tips; x timestamp patterns {ascending, all equal, descending} x event-ID orders {with, against creation order}; room versions 1 (algorithm v1), 2 and 10 (v2), 12 and org.matrix.hydra.11 (v2.1); scenarios that generate the same pair of branches are deduplicated. Oracle: resolved event-ID set of ResolveConflictsNew == refstate (independent implementation of v1 / v2 / v2.1 with refinements R1-R8 over the reference auth rules). Non-trivial = distinct scenario with >= 1 conflicted key.")
-	r.Assume("refstate + refauth are the definition (specification + DESIGN.md §5); rejected-event oracles: every conflicted scenario is re-run with each single event reported as rejected by the caller (thorough tier: all scenarios; quick tier: scenarios whose branches have one action)")
+	r.Assume("refstate + refauth are the definition (specification + DESIGN.md §5); rejected-event oracles: every conflicted scenario is re-run with each single event reported as rejected by the caller (thorough tier: all scenarios; quick tier: scenarios whose two branches have at most three actions together)")
 	r.OnReplay("scenario", func(raw json.RawMessage) error {
 		var sc scenario
 		if err := json.Unmarshal(raw, &sc); err != nil {
@@ -203,6 +211,46 @@ func run(r *harness.Run) {
 				}
 			}
 		})
+	}
+	// deep branches: one branch of up to DL actions over the control-event sub-alphabet (superseded power events, kicks
+	// followed by re-joins, join-rule flips) against a branch of at most one action; these are the DAG shapes in which an
+	// auth chain passes through several superseded control events
+	deepNames := []string{"pl-promote-carol", "pl-demote-bob", "jr-invite", "jr-public", "bob-kicks-carol", "carol-joins", "carol-leaves", "bob-invites-dave", "dave-joins", "topic-carol"}
+	DL := r.Pick(3, 4)
+	var deep [][]string
+	var genDeep func(cur []string)
+	genDeep = func(cur []string) {
+		if len(cur) >= 3 {
+			deep = append(deep, append([]string{}, cur...))
+		}
+		if len(cur) == DL {
+			return
+		}
+		for _, n := range deepNames {
+			genDeep(append(cur, n))
+		}
+	}
+	genDeep(nil)
+	for _, ver := range []string{"10", "12"} {
+		seen := newSigSet()
+		ver := ver
+		r.Parallel(len(deep), func(i int) {
+			for _, other := range append([][]string{{}}, singles(deepNames)...) {
+				if r.Expired() {
+					r.Cap("wall-clock budget reached in the deep-branch scenarios of version " + ver)
+					return
+				}
+				sc := scenario{Version: ver, IDMode: i % 2, TSMode: i % 3, A: deep[i], B: other}
+				b := build(sc)
+				if !seen.add(b.Sig) {
+					continue
+				}
+				if _, err := check(r, sc); err != nil {
+					r.Violation(fmt.Sprintf("scenario:%s/deep:%v|%v", ver, sc.A, sc.B), err.Error(), "scenario", sc)
+				}
+			}
+		})
+		r.Count("deep_branch_scenarios_"+ver, int64(seen.len()))
 	}
 	r.Sample("scenario", scenario{Version: "10", A: []string{"alice-bans-bob"}, B: []string{"topic-bob", "pl-bob-invite-50"}})
 	r.Sample("scenario", scenario{Version: "12", IDMode: 1, TSMode: 1, A: []string{"pl-demote-bob", "topic-alice"}, B: []string{"bob-kicks-carol", "carol-joins"}})
